@@ -47,8 +47,19 @@ impl Visitor<Diagnostic> for RuleDeclSubrangeLimits {
     type Value = ();
 
     fn visit_subrange(&mut self, node: &Subrange) -> Result<(), Diagnostic> {
-        let minimum: i128 = node.start.clone().try_into().expect("Value in range i128");
-        let maximum: i128 = node.end.clone().try_into().expect("Value in range i128");
+        // Bounds of 2^127 and above do not fit the comparison type
+        let minimum: Result<i128, _> = node.start.clone().try_into();
+        let maximum: Result<i128, _> = node.end.clone().try_into();
+        let (minimum, maximum) = match (minimum, maximum) {
+            (Ok(minimum), Ok(maximum)) => (minimum, maximum),
+            _ => {
+                return Err(Diagnostic::todo_with_span(
+                    node.start.value.span(),
+                    file!(),
+                    line!(),
+                ))
+            }
+        };
 
         if minimum >= maximum {
             self.diagnostics.push(
